@@ -175,6 +175,8 @@ async function judge(ctx, req, label) {
 }
 
 export const PROBES = [
+  { id: "import-type-of-own-default-export", files: { "entry.ts": 'type T = { n: import("./entry") | null };\nexport default T;\nexport const P = parse.buildParsers<{ X: T }>();\n' } },
+  { id: "import-type-of-default-export-cycle", files: { "entry.ts": 'import A from "./a";\nexport const P = parse.buildParsers<{ X: A }>();\n', "a.ts": 'type A = { b: import("./b")[] };\nexport default A;\n', "b.ts": 'type B = { a?: import("./a") };\nexport default B;\n' } },
   { id: "record-alias-chain", files: { "entry.ts": 'type B = "a" | "b"; type A = B; type R = Record<A, number>;\nparse.buildParsers<{ X: R }>();\n' } },
   { id: "record-self-key", files: { "entry.ts": "type K = Record<K, string>;\nparse.buildParsers<{ X: K }>();\n" } },
   { id: "exclude-literal-from-base", files: { "entry.ts": "parse.buildParsers<{ X: Exclude<number, 1> }>();\n" } },
@@ -245,6 +247,8 @@ export async function run(ctx) {
       ["self-union", (n) => `${n} | string`],
       ["self-intersection", (n) => `${n} & { a: 1 }`],
     ];
+    // (the same containers with the self-reference spelled `import("./entry")`, the module's default export)
+    const viaImport = containers.filter(([cn]) => !cn.startsWith("self")).map(([cn, c]) => [cn + "/import-default", c]);
     const operators = [
       ["plain", (n) => n],
       ["exclude-null", (n) => `Exclude<${n} | null, null>`],
@@ -286,6 +290,14 @@ export async function run(ctx) {
           ctx.count("recursion-grid");
           await judge(ctx, { files: { "entry.ts": text }, settings: { string_formats: [], number_formats: [] } }, `grid:${cn}/${on}${mutual ? "/mutual" : ""}`);
         }
+    for (const [cn, c] of viaImport)
+      for (const [on, o] of operators.filter(([n]) => !n.startsWith("generic-"))) {
+        k++;
+        if (k % ctx.of !== ctx.shard) continue;
+        const text = `type N = ${c('import("./entry")')};\nexport default N;\nexport const P = parse.buildParsers<{ X: ${o("N")} }>();\n`;
+        ctx.count("recursion-grid");
+        await judge(ctx, { files: { "entry.ts": text }, settings: { string_formats: [], number_formats: [] } }, `grid:${cn}/${on}`);
+      }
   }
   // JSDoc blocks whose frame (the blanks around the leading asterisks, the text after them) is made
   // of every kind of white space and of multi-byte characters; attached and unattached comments
